@@ -37,6 +37,9 @@ var (
 	srcNRGBA  *image.NRGBA
 	srcYCbCr  *image.YCbCr
 	srcBig    *image.NRGBA
+	srcPal    *image.Paletted
+	srcGray16 *image.Gray16
+	srcCMYK   *image.CMYK
 	files     map[string][]byte
 )
 
@@ -63,6 +66,22 @@ func setup() {
 	srcBig = image.NewNRGBA(image.Rect(0, 0, 96, 64))
 	for i := range srcBig.Pix {
 		srcBig.Pix[i] = byte(i*29 + i>>9)
+	}
+	pal := make(color.Palette, 256)
+	for i := range pal {
+		pal[i] = color.NRGBA{R: uint8(i * 7), G: uint8(i * 13), B: uint8(255 - i), A: uint8(128 + i/2)}
+	}
+	srcPal = image.NewPaletted(image.Rect(0, 0, 64, 48), pal)
+	for i := range srcPal.Pix {
+		srcPal.Pix[i] = byte(i*31 + i>>6)
+	}
+	srcGray16 = image.NewGray16(image.Rect(1, 1, 41, 31))
+	for i := range srcGray16.Pix {
+		srcGray16.Pix[i] = byte(i * 11)
+	}
+	srcCMYK = image.NewCMYK(image.Rect(0, 0, 33, 29))
+	for i := range srcCMYK.Pix {
+		srcCMYK.Pix[i] = byte(i*3 + 1)
 	}
 	files = map[string][]byte{}
 	for _, s := range seeds.Built() {
@@ -213,6 +232,19 @@ func run(op trial.Op) uint64 {
 			s.LineariseImage(d, srcBig, par)
 		} else {
 			s.EncodeImage(d, srcBig, par)
+		}
+		return digest(d.Pix)
+	case "TransformTyped":
+		// sources of other concrete types (paletted, grey, CMYK, YCbCr): type-specific paths inside one transform
+		// call have workers of their own
+		srcs := []image.Image{srcPal, srcGray16, srcCMYK, srcYCbCr}
+		src := srcs[a%len(srcs)]
+		par := []int{2, 3, 4, 8}[(a/4)%4]
+		d := image.NewRGBA64(src.Bounds())
+		if a&64 == 0 {
+			s.LineariseImage(d, src, par)
+		} else {
+			s.EncodeImage(d, src, par)
 		}
 		return digest(d.Pix)
 	case "ConvertImage":
